@@ -13,6 +13,7 @@ import (
 	"strings"
 
 	"go.sia.tech/core/consensus"
+	"go.sia.tech/core/gateway"
 	"go.sia.tech/core/types"
 	"verifmc/chain"
 	"verifmc/vf"
@@ -423,6 +424,15 @@ func probe(c *vf.Ctx, x *chain.Explorer, prev *chain.World, b types.Block, bs co
 			break
 		}
 	}
+	// compact relay: a node rebuilds a relayed v2 block from its outline BEFORE it can validate it
+	if b.V2 != nil && target == "block" && len(b.MinerPayouts) == 1 && !strings.Contains(path, "nil") { // (outlines are binary only: unset policies / nil pointers, which only JSON can produce, cannot arrive in one; outlining needs the one payout a v2 block has; the OUTLINE is what a peer controls)
+		if p, st := vf.Try(func() {
+			o := gateway.OutlineBlock(b, nil, nil)
+			_, _ = o.Complete(cs, nil, nil)
+		}); p != nil {
+			report("gateway.V2BlockOutline.Complete", p, st)
+		}
+	}
 	if verr != nil {
 		c.Count("mutant_rejected", 1)
 		return
@@ -485,7 +495,7 @@ func resealBlock(cs consensus.State, b *types.Block) {
 
 // Run is the validation half of C10.
 func Run(c *vf.Ctx) {
-	c.Set("validation_rule", "at every accepted block of a small union-alphabet DFS on every network family: every single structural mutation of the block and of its supplement (reflection walk: every field +-1 / byte flips / list drop, dup, swap, empty; integers and currencies set to 0, 1, 2^63, 2^64-1, 2^128-1, the unassigned-leaf sentinel; proofs resized to 0/63/64/65 hashes; out-of-range indices appended to every index list; pointers and interfaces set to nil; wrong / empty resolution types; policies nil, nested 31/32/33/200 deep, 255/256/1024/1025 wide; for every v1 signature the covered fields replaced by {one index list: [k]} for each of the ten lists and every k up to one past the transaction's longest list) is fed - as is and re-sealed (payout, commitment, nonce recomputed) - to ValidateBlock, ValidateOrphan, ValidateHeader, ValidateTransaction, ValidateV2Transaction and ValidateTransactionElements under recover; accepted mutants are applied and reverted; for a subset of block shapes (quick: 14 per network, thorough: all) additionally every PAIR of value-setting mutations on different leaves (at most 120 per block, evenly thinned); plus histories that contain a contract with an extreme file size (2^64-1, 2^64-63.., 2^63, ...; v1 and v2), followed at every height by storage proofs of several lengths, revisions and expirations for it")
+	c.Set("validation_rule", "at every accepted block of a small union-alphabet DFS on every network family: every single structural mutation of the block and of its supplement (reflection walk: every field +-1 / byte flips / list drop, dup, swap, empty; integers and currencies set to 0, 1, 2^63, 2^64-1, 2^128-1, the unassigned-leaf sentinel; proofs resized to 0/63/64/65 hashes; out-of-range indices appended to every index list; pointers and interfaces set to nil; wrong / empty resolution types; policies nil, nested 31/32/33/200 deep, 255/256/1024/1025 wide; for every v1 signature the covered fields replaced by {one index list: [k]} for each of the ten lists and every k up to one past the transaction's longest list) is fed - as is and re-sealed (payout, commitment, nonce recomputed) - to ValidateBlock, ValidateOrphan, ValidateHeader, ValidateTransaction, ValidateV2Transaction, ValidateTransactionElements and (v2 blocks: the block is outlined and rebuilt with gateway.V2BlockOutline.Complete, as a relaying node does before it can validate) under recover; accepted mutants are applied and reverted; for a subset of block shapes (quick: 14 per network, thorough: all) additionally every PAIR of value-setting mutations on different leaves (at most 120 per block, evenly thinned); plus histories that contain a contract with an extreme file size (2^64-1, 2^64-63.., 2^63, ...; v1 and v2), followed at every height by storage proofs of several lengths, revisions and expirations for it")
 	nets := []string{"mixed", "v1-eras", "v2-only", "v2-eph5"}
 	for _, n := range nets {
 		if c.Expired() {
@@ -582,13 +592,18 @@ func Run(c *vf.Ctx) {
 		x.Run()
 	}
 	hugeFiles(c, nil)
-	c.RequireFeature("blocks_mutated", "mutant_rejected", "mutant_accepted", "huge_file_contracts_formed", "huge_file_probes")
+	legacySiafunds(c, nil)
+	c.RequireFeature("blocks_mutated", "mutant_rejected", "mutant_accepted", "huge_file_contracts_formed", "huge_file_probes", "legacy_siafund_probes")
 }
 
 // Replay re-executes one recorded mutation.
 func Replay(c *vf.Ctx, cs Case) {
 	if cs.Target == "huge-file" {
 		hugeFiles(c, &cs)
+		return
+	}
+	if cs.Target == "legacy-siafunds" {
+		legacySiafunds(c, &cs)
 		return
 	}
 	tc := chain.TraceCase{Model: "union", Network: cs.Network, Seed: cs.Seed, Trace: cs.Trace}
